@@ -75,6 +75,13 @@ let handle (f : string list) : string =
         | Selected s ->
           Printf.sprintf "sel\t%s\t%d\t%d" (idxs s) (int_of_nat (selected_count ns s))
             (int_of_nat (platform_skipped c ns g)))
+  | ["selectspec"; nodes; cfg] ->
+    (* the repaired variant: roots of the property's reading *)
+    let (ns, g) = parse_nodes nodes in
+    with_cfg cfg (fun c ->
+        match select_for_build_spec c ns g with
+        | PlatformError -> "platform-error"
+        | Selected s -> Printf.sprintf "sel\t%s\t%d" (idxs s) (int_of_nat (selected_count ns s)))
   | ["selcost"; nodes; cfg] ->
     let (ns, g) = parse_nodes nodes in
     with_cfg cfg (fun c ->
